@@ -70,7 +70,7 @@ def reachable(qprev, qd):
     return np.unique(np.add.outer(np.asarray(qprev), np.asarray(qd)).reshape(-1))
 
 
-def mps_qD(rng, qd, L, profile, Dmax=5, q0=0, layout='unsorted'):
+def mps_qD(rng, qd, L, profile, Dmax=5, q0=0, layout='unsorted', qL=None):
     """
     Bond quantum numbers of a sector-consistent MPS.
     profile: 'one' (all bonds 1), 'random', 'max' (all reachable sectors with full multiplicity up to cap),
@@ -97,15 +97,15 @@ def mps_qD(rng, qd, L, profile, Dmax=5, q0=0, layout='unsorted'):
             q = np.sort(q)
         qD.append(np.asarray(q, dtype=int))
     allq = reachable(qD[-1], qd)
-    qD.append(np.array([int(rng.choice(allq))]))
+    qD.append(np.array([int(rng.choice(allq)) if qL is None else int(qL)]))
     if profile == 'disjoint' and L >= 2:
         k = int(rng.integers(1, L))
         qD[k] = qD[k] + 1000
     return qD
 
 
-def rand_mps(rng, qd, L, profile='random', Dmax=5, kind='complex', q0=0, layout='unsorted'):
-    qD = mps_qD(rng, qd, L, profile, Dmax, q0, layout)
+def rand_mps(rng, qd, L, profile='random', Dmax=5, kind='complex', q0=0, layout='unsorted', qL=None):
+    qD = mps_qD(rng, qd, L, profile, Dmax, q0, layout, qL)
     psi = ptn.MPS(qd, qD, fill='postpone')
     d = len(qd)
     for i in range(L):
